@@ -524,7 +524,7 @@ pub fn run(ctx: &Ctx) -> i32 {
         Finish {
             rule: format!("EXHAUSTIVE: every chunk program of length <= {} over {{layer, cel, slice, tags(0|1|2), legacy palette 0x0004, legacy palette 0x0011, palette, ignorable, user-data(neither|text|colour|both)}} that satisfies the quantifier's side conditions (validity is decided by the specification automaton, which is prefix-closed), plus every second-frame program of length <= {} over {{cel, linked cel, slice, legacy palette, ignorable, user-data x4}} after frame 0 = [layer, cel] and [layer, cel, user-data]; then random programs of 7..60 chunks over up to 4 frames; each record carries a unique id; evaluations = DFS subtrees + random programs, distinct = distinct program text hash per subtree/program", max_len, max_len_f1),
             coverage_extra: json!({"exhaustive_programs_checked": exhaustive, "max_len_frame0": max_len, "max_len_frame1": max_len_f1, "random_programs": nrand}),
-            assumptions: vec!["cel chunks are only generated after the layer chunk they reference".into(), "at most one tags chunk per program (a second one would replace the first)".into()],
+            assumptions: vec!["cel chunks are only generated after the layer chunk they reference".into(), "a further tags chunk in the first frame appends its tags (file order), and the records following it go to its own tags".into()],
             exhaustive: true,
             min_evaluations: 100,
         },
